@@ -647,6 +647,20 @@ pub fn make_n(rng: &mut StdRng, pool: &mut Pool, shape: &str, bits: u32) -> (Uin
             let q = big_prime(pool, rest - (rest / 2).max(8));
             known(vec![reg_small(pool, f), p, q])
         }
+        "twotiny" => {
+            // 2..3 distinct primes just above the trial-division bound, times one large prime
+            let tiny: Vec<u64> = (211u64..400).filter(|&c| is_prime_u64(c)).collect();
+            let mut ps: Vec<Uint> = vec![];
+            let k = rng.gen_range(2..=3);
+            while ps.len() < k {
+                let c = reg_small(pool, tiny[rng.gen_range(0..tiny.len())]);
+                if !ps.contains(&c) {
+                    ps.push(c);
+                }
+            }
+            ps.push(big_prime(pool, bits.saturating_sub(8 * k as u32).max(10)));
+            known(ps)
+        }
         "smallcof" => {
             // several factors of at most 40 bits and one large prime (the working range of pure ECM)
             let mut ps = vec![];
@@ -845,6 +859,98 @@ pub fn list_works(prefix: &str, alg: &str, ns: &[u64], chunk: usize, deadline: f
         .collect()
 }
 
+/// composites below `bound` that pass the strong (Miller) test for bases 2 and 3 - the adversarial inputs for
+/// the first tier of the library's 64-bit primality test, found with the harness's own arithmetic
+pub fn spsp23_list(bound: u64) -> Vec<u64> {
+    let mm = |a: u64, b: u64, n: u64| ((a as u128 * b as u128) % n as u128) as u64;
+    let strong = |n: u64, a: u64| -> bool {
+        let mut d = n - 1;
+        let mut s = 0;
+        while d % 2 == 0 {
+            d /= 2;
+            s += 1;
+        }
+        let (mut x, mut b, mut e) = (1u64, a % n, d);
+        while e > 0 {
+            if e & 1 == 1 {
+                x = mm(x, b, n);
+            }
+            b = mm(b, b, n);
+            e >>= 1;
+        }
+        if x == 1 || x == n - 1 {
+            return true;
+        }
+        for _ in 1..s {
+            x = mm(x, x, n);
+            if x == n - 1 {
+                return true;
+            }
+        }
+        false
+    };
+    let mut v = vec![];
+    let mut n = 9u64;
+    while n < bound {
+        if strong(n, 2) && strong(n, 3) && !is_prime_u64(n) {
+            v.push(n);
+        }
+        n += 2;
+    }
+    v
+}
+
+/// prime factorisation of a 64-bit number by trial division (harness side; used for numbers with small factors)
+pub fn trial_factor(mut n: u64) -> Vec<u64> {
+    let mut f = vec![];
+    let mut d = 2u64;
+    while d * d <= n {
+        while n % d == 0 {
+            f.push(d);
+            n /= d;
+        }
+        d += if d == 2 { 1 } else { 2 };
+        if d > (1 << 27) {
+            break;
+        }
+    }
+    if n > 1 {
+        f.push(n);
+    }
+    f
+}
+
+/// Known strong pseudoprimes / Carmichael numbers above 2^31 (psi_5, psi_6, psi_7 = psi_8, psi_9 = psi_10 = psi_11,
+/// the Carmichael number of the repository's own test) and small multiples: composites that the primality test
+/// behind every recursion step must reject; their factorisation is found by trial division here.
+pub fn pseudoprime_cases(prefix: &str, pool: &mut Pool, deadline: f64) -> Vec<Work> {
+    let base: [u64; 5] = [2152302898747, 3474749660383, 341550071728321, 3825123056546413051, 9746347772161];
+    let mut works = vec![];
+    let mut i = 0;
+    for &b in &base {
+        for k in [1u64, 3, 2 * 199, 211] {
+            let Some(n) = b.checked_mul(k) else { continue };
+            let ps = trial_factor(n);
+            if ps.iter().any(|&p| p >= 1 << 31 || !is_prime_u64(p)) {
+                continue;
+            }
+            let primes: Vec<Uint> = ps.iter().map(|&p| reg_small(pool, p)).collect();
+            works.push(Work::One(Case {
+                id: format!("{}/spsp/{}", prefix, i),
+                n: Uint::from(n),
+                alg: "auto".to_string(),
+                pref: Pref::default(),
+                deadline,
+                hooks: true,
+                primes: Some(primes),
+                shape: json!({"shape": "spsp", "bits": 64 - b.leading_zeros(), "alg": "auto", "pref": {}}),
+            }));
+            i += 1;
+        }
+    }
+    works
+}
+
 /// common entry point of the c01 / c02 / c03 drivers
 pub fn run_prop(args: &Args, prop: &str) -> i32 {
     // a panic here is a bug of the driver itself (the code under test only runs in child processes, guarded)
@@ -888,6 +994,12 @@ fn run_prop_inner(args: &Args, prop: &str) -> i32 {
             for alg in ["auto", "ecm", "ecm128"] {
                 works.extend(list_works("r", alg, &rc, 512, sd));
             }
+            // adversarial composites for the primality test every recursion step relies on
+            let sp = spsp23_list(if thorough { 1 << 25 } else { 1 << 23 });
+            works.extend(list_works("p", "auto", &sp, 64, sd));
+            let sp3: Vec<u64> = sp.iter().map(|&n| 3 * n).filter(|&n| n < 1 << 30).collect();
+            works.extend(list_works("p", "auto", &sp3, 64, sd));
+            works.extend(pseudoprime_cases(&driver, &mut pool, deadline));
         }
         _ => {
             let rc = rough_composites(if thorough { 1 << 19 } else { 1 << 17 });
@@ -900,7 +1012,7 @@ fn run_prop_inner(args: &Args, prop: &str) -> i32 {
     if let Some(id) = only {
         // replay of one recorded case: a single call, or the n of a small event "prefix/alg/n"
         let parts: Vec<&str> = id.split('/').collect();
-        works = if parts.len() == 3 && (parts[0] == "s" || parts[0] == "r") {
+        works = if parts.len() == 3 && (parts[0] == "s" || parts[0] == "r" || parts[0] == "p") {
             let n: u64 = parts[2].parse().expect("n");
             vec![Work::Sweep { id: format!("{}/{}", parts[0], parts[1]), alg: parts[1].to_string(), lo: n, hi: n + 1,
                                ns: vec![n], deadline: sd }]
